@@ -720,6 +720,48 @@ def walk_events(evs):
             yield from walk_events(e[4])
 
 
+STD_STREAMS = ("stdout", "stderr", "stdin")
+
+
+def std_stream_uses(mods, bodies):
+    """Where the tree touches sys.stdout / sys.stderr / sys.stdin.  These objects are None when the host started the
+    interpreter with the descriptor closed, so an attribute access on them AT IMPORT TIME makes importing depend on
+    the environment.  `module_level`: attribute accesses on a std stream among the translated import-time events (the
+    model treats the stream as an opaque object: such a line is an obligation for the host-configuration matrix of
+    the check).  `in_functions`: functions and methods that mention a std stream; when one of them runs at import
+    time (e.g. getConsole() -> Console.__init__ -> reopen) the effect is outside the model."""
+    module_level, in_functions = [], []
+    for m in sorted(bodies):
+        for e in walk_events(bodies[m]):
+            if e[0] == "use" and e[2] == "sys" and len(e[3]) >= 2 and e[3][0] in STD_STREAMS:
+                module_level.append("%s:%d sys.%s" % (m, e[1], ".".join(e[3])))
+        path = mods[m]["path"]
+        if not path:
+            continue
+        import warnings
+        with warnings.catch_warnings():
+            warnings.simplefilter("ignore")
+            try:
+                tree = ast.parse(open(path, "rb").read(), path)
+            except SyntaxError:
+                continue
+
+        def visit(node, qual):
+            for ch in ast.iter_child_nodes(node):
+                if isinstance(ch, (ast.FunctionDef, ast.AsyncFunctionDef)):
+                    q = qual + [ch.name]
+                    hit = sorted({"sys." + a.attr for a in ast.walk(ch)
+                                  if isinstance(a, ast.Attribute) and a.attr in STD_STREAMS
+                                  and isinstance(a.value, ast.Name) and a.value.id == "sys"})
+                    if hit:
+                        in_functions.append("%s:%d %s (%s)" % (m, ch.lineno, ".".join(q), ", ".join(hit)))
+                    visit(ch, q)
+                elif isinstance(ch, ast.ClassDef):
+                    visit(ch, qual + [ch.name])
+        visit(tree, [])
+    return {"module_level": module_level, "in_functions": in_functions}
+
+
 def build(repo):
     """the whole graph as a JSON-able dict"""
     mods = discover(repo)
@@ -731,6 +773,7 @@ def build(repo):
         if ex.dynamic:
             dynamic.append(m)
     domain = sorted(m for m in mods if mods[m]["path"] is not None)
+    std_uses = std_stream_uses(mods, bodies)
 
     def is_ioflo(name):
         return name == "ioflo" or name.startswith("ioflo.")
@@ -900,7 +943,7 @@ def build(repo):
                                   "body": evs, "fail": None}
     return {"nodes": graph_nodes, "domain": domain, "preloaded": preloaded, "idents": sorted(idents),
             "builtins": [b for b in base["builtins"] if b in idents], "notes": sorted(set(notes)),
-            "dynamic": dynamic,
+            "dynamic": dynamic, "std_stream_uses": std_uses,
             "python": sys.version.split()[0]}
 
 
